@@ -143,9 +143,10 @@ structure Inv (P : Prims) (bs : List Block) (l : Ledger) : Prop where
   cache : ∀ (h : Nat) (x : Hash), mapGet h l.cache.idx = some x → ∀ b : Block, bs[h]? = some b → x = P.hH b.hdr
   blk : ∀ e ∈ l.blkCache, e.1 = P.hH e.2.hdr ∧ ∃ i : Nat, bs[i]? = some e.2
   txc : ∀ e ∈ l.txCache, e.1 = P.hT e.2.1 ∧ ∃ b : Block, bs[e.2.2]? = some b ∧ e.2.1 ∈ b.txs
+  len : bs.length ≤ l.curHeight + 1
 
 theorem inv_empty (P : Prims) : Inv P [] emptyLedger :=
-  ⟨by simp, by simp, by simp, by simp, by simp [emptyLedger, mapGet], by simp [emptyLedger], by simp [emptyLedger]⟩
+  ⟨by simp, by simp, by simp, by simp, by simp [emptyLedger, mapGet], by simp [emptyLedger], by simp [emptyLedger], by simp⟩
 
 theorem good_prefix {P : Prims} {bs : List Block} {b : Block} (g : Good P (bs ++ [b])) : Good P bs := by
   have up : ∀ i c, bs[i]? = some c → (bs ++ [b])[i]? = some c := fun i c h => by
@@ -201,7 +202,7 @@ theorem inv_commit (P : Prims) (bs : List Block) (b : Block) (l : Ledger) (inv :
     exact h
   obtain ⟨so1, so2, so3⟩ := saveTxs_other P b.hdr.height b.txs
     (putHdr (putHgt { l.store with cur := some (b.hdr.height, P.hH b.hdr) } b.hdr.height (P.hH b.hdr)) (P.hH b.hdr) (b.hdr, b.txs.map P.hT))
-  refine ⟨?_, ?_, ?_, ?_, ?_, ?_, ?_⟩
+  refine ⟨?_, ?_, ?_, ?_, ?_, ?_, ?_, by simp [commit, hb]⟩
   · intro c hc
     simp at hc
     subst hc
@@ -300,7 +301,19 @@ theorem inv_restart (P : Prims) (bs : List Block) (l l' : Ledger) (inv : Inv P b
     | some c =>
       simp only [hr, Option.some.injEq] at h
       subst h
-      refine ⟨?_, inv.hgt, inv.hdr, inv.tx, ?_, by simp, by simp⟩
+      refine ⟨?_, inv.hgt, inv.hdr, inv.tx, ?_, by simp, by simp, ?_⟩
+      rotate_left 2
+      · cases hl : bs.getLast? with
+        | none => simp [List.getLast?_eq_none_iff.mp hl]
+        | some b =>
+          obtain ⟨_, h2⟩ := inv.cur b hl
+          rw [hc] at h2
+          simp only [Option.some.injEq, Prod.mk.injEq] at h2
+          have : 0 < bs.length := by
+            cases bs with
+            | nil => simp at hl
+            | cons _ _ => simp
+          simp only; omega
       · intro b hb
         obtain ⟨h1, h2⟩ := inv.cur b hb
         rw [hc] at h2
@@ -403,6 +416,17 @@ theorem good_prefix_append {P : Prims} {xs ys : List Block} (g : Good P (xs ++ y
     fun i j c c' h h' e => g.hdrs i j c c' (up i c h) (up j c' h') e,
     fun i j c c' t t' h h' m m' e => g.txs i j c c' t t' (up i c h) (up j c' h') m m' e⟩
 
+theorem inv_syncHeader (P : Prims) (bs : List Block) (x : Hash) (l : Ledger) (inv : Inv P bs l) : Inv P bs (syncHeader x l) := by
+  refine ⟨inv.cur, inv.hgt, inv.hdr, inv.tx, ?_, inv.blk, inv.txc, inv.len⟩
+  intro h y hy b hb
+  simp only [syncHeader] at hy
+  rcases setHeaderIndex_get _ _ _ _ _ _ hy with ⟨e1, _⟩ | ⟨_, e2⟩
+  · subst e1
+    have := inv.len
+    rw [List.getElem?_eq_none (by omega)] at hb
+    cases hb
+  · exact inv.cache h y e2 b hb
+
 theorem inv_runOps (P : Prims) (ops : List Op) (bs : List Block) (l l' : Ledger) (inv : Inv P bs l)
     (h : runOps P ops l = some l') (g : Good P (bs ++ committed ops)) : Inv P (bs ++ committed ops) l' := by
   induction ops generalizing bs l with
@@ -428,5 +452,420 @@ theorem inv_runOps (P : Prims) (ops : List Op) (bs : List Block) (l l' : Ledger)
         have e : bs ++ committed (Op.restart :: r) = bs ++ committed r := by simp [committed]
         rw [e] at g ⊢
         exact ih _ _ (inv_restart P bs l l1 inv hr) h g
+    | syncHeader x =>
+      simp only [step] at h
+      have e : bs ++ committed (Op.syncHeader x :: r) = bs ++ committed r := by simp [committed]
+      rw [e] at g ⊢
+      by_cases hl : l.cache.last = l.curHeight
+      · simp only [hl, if_true] at h
+        exact ih _ _ (inv_syncHeader P bs x l inv) h g
+      · simp [hl] at h
+
+/-! ### the exact window of the header index cache -/
+
+/-- the keys of the index are exactly the half-open interval `[lo, hiE)`, each once -/
+structure KeysAre (idx : List (Nat × Hash)) (lo hiE : Nat) : Prop where
+  keys : ∀ k, (mapGet k idx).isSome ↔ (lo ≤ k ∧ k < hiE)
+  nodup : (idx.map (·.1)).Nodup
+  len : idx.length + lo = hiE
+
+theorem mapGet_isSome_iff (k : Nat) (idx : List (Nat × Hash)) : (mapGet k idx).isSome ↔ k ∈ idx.map (·.1) := by
+  induction idx with
+  | nil => simp [mapGet]
+  | cons e r ih =>
+    obtain ⟨a, x⟩ := e
+    simp only [mapGet, List.map_cons, List.mem_cons]
+    by_cases h : a = k
+    · simp [h]
+    · have : ¬ k = a := fun e => h e.symm
+      simp [h, this, ih]
+
+theorem filter_len_absent (k : Nat) (idx : List (Nat × Hash)) (h : k ∉ idx.map (·.1)) :
+    idx.filter (fun e => e.1 ≠ k) = idx := by
+  apply List.filter_eq_self.mpr
+  intro e he
+  have : e.1 ≠ k := fun q => h (by simp; exact ⟨e.2, by rw [← q]; exact he⟩)
+  simpa using this
+
+theorem filter_len_present (k : Nat) (idx : List (Nat × Hash)) (nd : (idx.map (·.1)).Nodup) (h : k ∈ idx.map (·.1)) :
+    (idx.filter (fun e => e.1 ≠ k)).length + 1 = idx.length := by
+  induction idx with
+  | nil => simp at h
+  | cons e r ih =>
+    obtain ⟨a, x⟩ := e
+    simp only [List.map_cons, List.nodup_cons] at nd
+    by_cases hak : a = k
+    · subst hak
+      have : (r.filter (fun e => e.1 ≠ a)) = r := filter_len_absent a r nd.1
+      have hd : List.filter (fun e => decide (e.1 ≠ a)) ((a, x) :: r) = List.filter (fun e => decide (e.1 ≠ a)) r :=
+        List.filter_cons_of_neg (by simp)
+      rw [hd, this]; simp
+    · have hr : k ∈ r.map (·.1) := by
+        simp only [List.map_cons, List.mem_cons] at h
+        rcases h with e | e
+        · exact absurd e.symm hak
+        · exact e
+      have := ih nd.2 hr
+      have hd : List.filter (fun e => decide (e.1 ≠ k)) ((a, x) :: r) = (a, x) :: List.filter (fun e => decide (e.1 ≠ k)) r :=
+        List.filter_cons_of_pos (by simpa using hak)
+      rw [hd]; simp only [List.length_cons]; omega
+
+theorem nodup_filter (k : Nat) (idx : List (Nat × Hash)) (nd : (idx.map (·.1)).Nodup) :
+    ((idx.filter (fun e => e.1 ≠ k)).map (·.1)).Nodup :=
+  List.Pairwise.sublist ((List.filter_sublist).map _) nd
+
+theorem keysAre_del (idx : List (Nat × Hash)) (lo hiE : Nat) (ka : KeysAre idx lo hiE) (h : lo < hiE) :
+    KeysAre (mapDel lo idx) (lo + 1) hiE := by
+  refine ⟨?_, nodup_filter lo idx ka.nodup, ?_⟩
+  · intro k
+    unfold mapDel
+    rw [mapGet_filter]
+    by_cases e : k = lo
+    · subst e; simp; omega
+    · simp only [e, if_false, ka.keys k]
+      omega
+  · have hp : lo ∈ idx.map (·.1) := (mapGet_isSome_iff lo idx).mp ((ka.keys lo).mpr ⟨Nat.le_refl _, h⟩)
+    have := filter_len_present lo idx ka.nodup hp
+    have := ka.len
+    unfold mapDel
+    omega
+
+/-- setting the key just above the interval extends it -/
+theorem keysAre_set_new (idx : List (Nat × Hash)) (lo hiE : Nat) (x : Hash) (ka : KeysAre idx lo hiE) (h : lo ≤ hiE) :
+    KeysAre (mapSet hiE x idx) lo (hiE + 1) := by
+  have ab : hiE ∉ idx.map (·.1) := fun q => by
+    have := (ka.keys hiE).mp ((mapGet_isSome_iff hiE idx).mpr q)
+    omega
+  have fe : idx.filter (fun e => e.1 ≠ hiE) = idx := filter_len_absent hiE idx ab
+  refine ⟨?_, ?_, ?_⟩
+  · intro k
+    rw [mapGet_mapSet]
+    by_cases e : k = hiE
+    · subst e; simp; exact h
+    · simp only [e, if_false, ka.keys k]; omega
+  · unfold mapSet; rw [fe]; simp only [List.map_cons, List.nodup_cons]; exact ⟨ab, ka.nodup⟩
+  · unfold mapSet; rw [fe]; simp only [List.length_cons]; have := ka.len; omega
+
+/-- overwriting a key inside the interval keeps it -/
+theorem keysAre_set_old (idx : List (Nat × Hash)) (lo hiE h : Nat) (x : Hash) (ka : KeysAre idx lo hiE) (h1 : lo ≤ h) (h2 : h < hiE) :
+    KeysAre (mapSet h x idx) lo hiE := by
+  have hp : h ∈ idx.map (·.1) := (mapGet_isSome_iff h idx).mp ((ka.keys h).mpr ⟨h1, h2⟩)
+  refine ⟨?_, ?_, ?_⟩
+  · intro k
+    rw [mapGet_mapSet]
+    by_cases e : k = h
+    · subst e; simp; exact ⟨h1, h2⟩
+    · simp only [e, if_false, ka.keys k]
+  · unfold mapSet
+    simp only [List.map_cons, List.nodup_cons]
+    refine ⟨?_, nodup_filter h idx ka.nodup⟩
+    intro q
+    simp only [List.mem_map, List.mem_filter] at q
+    obtain ⟨e, ⟨_, he⟩, hq⟩ := q
+    simp at he
+    exact he hq
+  · unfold mapSet
+    have := filter_len_present h idx ka.nodup hp
+    have := ka.len
+    simp only [List.length_cons]; omega
+
+/-- the eviction loop removes `size - MAX` keys from the bottom -/
+theorem evictLoop_spec (fuel size first hiE : Nat) (idx : List (Nat × Hash)) (ka : KeysAre idx first hiE)
+    (hf : size - headerIndexMaxSize ≤ fuel) (hb : first + (size - headerIndexMaxSize) ≤ hiE) :
+    (evictLoop fuel size first idx).1 = first + (size - headerIndexMaxSize)
+      ∧ KeysAre (evictLoop fuel size first idx).2 (first + (size - headerIndexMaxSize)) hiE := by
+  induction fuel generalizing size first idx with
+  | zero =>
+    have : size - headerIndexMaxSize = 0 := by omega
+    rw [this, Nat.add_zero]
+    exact ⟨rfl, ka⟩
+  | succ n ih =>
+    simp only [evictLoop, evictWhile]
+    by_cases hs : size > headerIndexMaxSize
+    · simp only [hs, decide_true, if_true]
+      have h1 : first < hiE := by omega
+      have := ih (size - 1) (first + 1) (mapDel first idx) (keysAre_del idx first hiE ka h1) (by omega) (by omega)
+      have e : first + 1 + (size - 1 - headerIndexMaxSize) = first + (size - headerIndexMaxSize) := by omega
+      rw [e] at this
+      exact this
+    · simp only [hs, decide_false, Bool.false_eq_true, if_false]
+      have : size - headerIndexMaxSize = 0 := by omega
+      rw [this, Nat.add_zero]
+      exact ⟨rfl, ka⟩
+
+theorem maxSize_pos : 1 ≤ headerIndexMaxSize := by decide
+
+structure Window (c : Cache) (lo hiE : Nat) : Prop where
+  first : c.first = lo
+  keys : KeysAre c.idx lo hiE
+  lastLe : c.last ≤ hiE
+  last : lo < hiE → c.last + 1 = hiE
+
+/-- bottom of the window after `setHeaderIndex` ran its eviction with current block height `cur` -/
+def evictedLo (cur lo : Nat) : Nat := if lo < cur then lo + (cacheSize cur lo - headerIndexMaxSize) else lo
+
+theorem evictedLo_eq_max (cur lo : Nat) : evictedLo cur lo = max lo (cur + 1 - headerIndexMaxSize) := by
+  have := maxSize_pos
+  unfold evictedLo cacheSize
+  by_cases h : lo < cur
+  · simp only [h, if_true]; omega
+  · simp only [h, if_false]; omega
+
+theorem setHeaderIndex_new (cur : Nat) (x : Hash) (c : Cache) (lo hiE : Nat) (w : Window c lo hiE) (hl : lo ≤ hiE)
+    (hb : evictedLo cur lo ≤ hiE + 1) : Window (setHeaderIndex cur hiE x c) (evictedLo cur lo) (hiE + 1) := by
+  have k1 := keysAre_set_new c.idx lo hiE x w.keys hl
+  have hlast : (if c.last < hiE then hiE else c.last) = hiE := by
+    have := w.lastLe
+    by_cases q : c.last < hiE
+    · simp [q]
+    · simp only [q, if_false]; omega
+  unfold setHeaderIndex evictedLo at *
+  rw [w.first]
+  by_cases g : lo < cur
+  · have g' : evictGuard cur lo = true := by simp [evictGuard, g]
+    simp only [g, if_true] at hb ⊢
+    simp only [g', if_true]
+    obtain ⟨e1, e2⟩ := evictLoop_spec (cacheSize cur lo) (cacheSize cur lo) lo (hiE + 1) _ k1 (by omega) hb
+    refine ⟨e1, e2, ?_, ?_⟩
+    · simp only [hlast]; omega
+    · intro _; simp only [hlast]
+  · have g' : evictGuard cur lo = false := by simp [evictGuard, g]
+    simp only [g, if_false] at hb ⊢
+    simp only [g', Bool.false_eq_true, if_false]
+    refine ⟨rfl, k1, ?_, ?_⟩
+    · simp only [hlast]; omega
+    · intro _; simp only [hlast]
+
+theorem setHeaderIndex_old (cur h : Nat) (x : Hash) (c : Cache) (lo hiE : Nat) (w : Window c lo hiE) (h1 : lo ≤ h) (h2 : h < hiE)
+    (hb : evictedLo cur lo ≤ hiE) : Window (setHeaderIndex cur h x c) (evictedLo cur lo) hiE := by
+  have k1 := keysAre_set_old c.idx lo hiE h x w.keys h1 h2
+  have hlast : (if c.last < h then h else c.last) = c.last := by
+    have := w.last (by omega)
+    have q : ¬ c.last < h := by omega
+    simp [q]
+  unfold setHeaderIndex evictedLo at *
+  rw [w.first]
+  by_cases g : lo < cur
+  · have g' : evictGuard cur lo = true := by simp [evictGuard, g]
+    simp only [g, if_true] at hb ⊢
+    simp only [g', if_true]
+    obtain ⟨e1, e2⟩ := evictLoop_spec (cacheSize cur lo) (cacheSize cur lo) lo hiE _ k1 (by omega) hb
+    refine ⟨e1, e2, ?_, ?_⟩
+    · simp only [hlast]; exact w.lastLe
+    · intro _; simp only [hlast]; exact w.last (by omega)
+  · have g' : evictGuard cur lo = false := by simp [evictGuard, g]
+    simp only [g, if_false] at hb ⊢
+    simp only [g', Bool.false_eq_true, if_false]
+    refine ⟨rfl, k1, ?_, ?_⟩
+    · simp only [hlast]; exact w.lastLe
+    · intro q; simp only [hlast]; exact w.last q
+
+/-- window of a ledger that holds at least one block: `[lo, hiE)` with `hiE` = current height + 1, or + 2 when one header is ahead -/
+structure LWin (l : Ledger) (lo hiE : Nat) : Prop where
+  win : Window l.cache lo hiE
+  lo_le : lo ≤ l.curHeight
+  hi : hiE = l.curHeight + 1 ∨ hiE = l.curHeight + 2
+
+theorem evictedLo_le (cur lo : Nat) (h : lo ≤ cur) : evictedLo cur lo ≤ cur := by
+  have := maxSize_pos
+  rw [evictedLo_eq_max]; omega
+
+theorem lwin_commit (P : Prims) (b : Block) (l : Ledger) (lo hiE : Nat) (w : LWin l lo hiE) (hb : b.hdr.height = l.curHeight + 1) :
+    LWin (commit P b l) (evictedLo l.curHeight lo) (l.curHeight + 2) := by
+  have hle := evictedLo_le l.curHeight lo w.lo_le
+  rcases w.hi with e | e
+  · subst e
+    refine ⟨?_, by simp [commit, hb]; omega, Or.inl (by simp [commit, hb])⟩
+    simp only [commit, hb]
+    exact setHeaderIndex_new l.curHeight _ l.cache lo (l.curHeight + 1) w.win (by have := w.lo_le; omega) (by omega)
+  · subst e
+    refine ⟨?_, by simp [commit, hb]; omega, Or.inl (by simp [commit, hb])⟩
+    simp only [commit, hb]
+    exact setHeaderIndex_old l.curHeight (l.curHeight + 1) _ l.cache lo (l.curHeight + 2) w.win (by have := w.lo_le; omega) (by omega) (by omega)
+
+theorem lwin_sync (x : Hash) (l : Ledger) (lo hiE : Nat) (w : LWin l lo hiE) (hl : l.cache.last = l.curHeight) :
+    LWin (syncHeader x l) (evictedLo l.curHeight lo) (l.curHeight + 2) := by
+  have hle := evictedLo_le l.curHeight lo w.lo_le
+  have e : hiE = l.curHeight + 1 := by
+    rcases w.hi with e | e
+    · exact e
+    · have h1 := w.lo_le
+      have := w.win.last (by omega); omega
+  subst e
+  refine ⟨?_, by simp [syncHeader]; omega, Or.inr (by simp [syncHeader])⟩
+  simp only [syncHeader]
+  exact setHeaderIndex_new l.curHeight x l.cache lo (l.curHeight + 1) w.win (by have := w.lo_le; omega) (by omega)
+
+theorem cacheSize_loadStart (cur : Nat) : cacheSize cur (loadStart cur) - headerIndexMaxSize = 0 := by
+  have := maxSize_pos
+  unfold cacheSize loadStart
+  by_cases h : cur + 1 > headerIndexMaxSize
+  · simp only [h, if_true]; omega
+  · simp only [h, if_false]; omega
+
+theorem reloadLoop_window (s : Store) (cur n i : Nat) (c c' : Cache) (w : Window c (loadStart cur) i) (hi : loadStart cur ≤ i)
+    (h : reloadLoop s cur n i c = some c') : Window c' (loadStart cur) (i + n) := by
+  induction n generalizing i c with
+  | zero => simp only [reloadLoop, Option.some.injEq] at h; subst h; simpa using w
+  | succ n ih =>
+    simp only [reloadLoop] at h
+    cases hs : s.hgt i with
+    | none => simp [hs] at h
+    | some x =>
+      simp only [hs] at h
+      have e : evictedLo cur (loadStart cur) = loadStart cur := by
+        unfold evictedLo; rw [cacheSize_loadStart]; simp
+      have w1 := setHeaderIndex_new cur x c (loadStart cur) i w hi (by rw [e]; omega)
+      rw [e] at w1
+      have := ih (i + 1) _ w1 (by omega) h
+      rw [Nat.add_assoc, Nat.add_comm 1 n] at this
+      exact this
+
+theorem loadStart_le (cur : Nat) : loadStart cur ≤ cur := by
+  have := maxSize_pos
+  unfold loadStart
+  by_cases h : cur + 1 > headerIndexMaxSize
+  · simp only [h, if_true]; omega
+  · simp only [h, if_false]; omega
+
+theorem lwin_restart (l l' : Ledger) (cur : Nat) (x0 : Hash) (hc : l.store.cur = some (cur, x0)) (h : restart l = some l') :
+    LWin l' (loadStart cur) (cur + 1) ∧ l'.curHeight = cur := by
+  unfold restart at h
+  simp only [hc] at h
+  cases hr : reloadLoop l.store cur (cur + 1 - loadStart cur) (loadStart cur) ⟨[], loadStart cur, loadStart cur⟩ with
+  | none => simp [hr] at h
+  | some c =>
+    simp only [hr, Option.some.injEq] at h
+    subst h
+    have w0 : Window (⟨[], loadStart cur, loadStart cur⟩ : Cache) (loadStart cur) (loadStart cur) :=
+      ⟨rfl, ⟨fun k => ⟨fun q => by simp [mapGet] at q, fun ⟨a, b⟩ => by omega⟩, by simp, by simp⟩, Nat.le_refl _, fun q => absurd q (Nat.lt_irrefl _)⟩
+    have w := reloadLoop_window l.store cur _ _ _ c w0 (Nat.le_refl _) hr
+    have hl := loadStart_le cur
+    have e : loadStart cur + (cur + 1 - loadStart cur) = cur + 1 := by omega
+    rw [e] at w
+    exact ⟨⟨w, hl, Or.inl rfl⟩, rfl⟩
+
+/-- the specification of the window: bottom and (exclusive) top after each operation, by plain arithmetic -/
+def specStep : Nat × Nat × Nat → Op → Option (Nat × Nat × Nat)
+  | (cur, lo, _), .commit _ => some (cur + 1, max lo (cur + 1 - headerIndexMaxSize), cur + 2)
+  | (cur, _, _), .restart => some (cur, loadStart cur, cur + 1)
+  | (cur, lo, hiE), .syncHeader _ => if hiE = cur + 1 then some (cur, max lo (cur + 1 - headerIndexMaxSize), cur + 2) else none
+
+def specRun : List Op → Nat × Nat × Nat → Option (Nat × Nat × Nat)
+  | [], st => some st
+  | op :: r, st => match specStep st op with
+    | none => none
+    | some st' => specRun r st'
+
+theorem window_runOps (P : Prims) (ops : List Op) (bs : List Block) (l l' : Ledger) (lo hiE : Nat) (inv : Inv P bs l) (ne : bs ≠ [])
+    (w : LWin l lo hiE) (h : runOps P ops l = some l') (g : Good P (bs ++ committed ops)) :
+    ∃ lo' hiE', specRun ops (l.curHeight, lo, hiE) = some (l'.curHeight, lo', hiE') ∧ LWin l' lo' hiE' := by
+  induction ops generalizing bs l lo hiE with
+  | nil =>
+    simp only [runOps, Option.some.injEq] at h
+    subst h
+    exact ⟨lo, hiE, rfl, w⟩
+  | cons op r ih =>
+    obtain ⟨bl, hbl⟩ : ∃ b, bs.getLast? = some b := by
+      cases hq : bs.getLast? with
+      | none => exact absurd (List.getLast?_eq_none_iff.mp hq) ne
+      | some b => exact ⟨b, rfl⟩
+    obtain ⟨hcur, hstore⟩ := inv.cur bl hbl
+    have hpos : 0 < bs.length := List.length_pos_iff.mpr ne
+    simp only [runOps] at h
+    cases op with
+    | commit b =>
+      simp only [step] at h
+      have e : bs ++ committed (Op.commit b :: r) = (bs ++ [b]) ++ committed r := by simp [committed]
+      rw [e] at g
+      have gp : Good P (bs ++ [b]) := good_prefix_append g
+      have hb : b.hdr.height = l.curHeight + 1 := by
+        have := gp.heights bs.length b (by simp)
+        omega
+      have w1 := lwin_commit P b l lo hiE w hb
+      obtain ⟨lo', hiE', h1, h2⟩ := ih (bs ++ [b]) (commit P b l) _ _ (inv_commit P bs b l inv gp) (by simp) w1 h g
+      refine ⟨lo', hiE', ?_, h2⟩
+      simp only [specRun, specStep]
+      have : (commit P b l).curHeight = l.curHeight + 1 := by simp [commit, hb]
+      rw [this, evictedLo_eq_max] at h1
+      exact h1
+    | restart =>
+      simp only [step] at h
+      cases hr : restart l with
+      | none => simp [hr] at h
+      | some l1 =>
+        simp only [hr] at h
+        have e : bs ++ committed (Op.restart :: r) = bs ++ committed r := by simp [committed]
+        rw [e] at g
+        obtain ⟨w1, hc1⟩ := lwin_restart l l1 _ _ hstore hr
+        obtain ⟨lo', hiE', h1, h2⟩ := ih bs l1 _ _ (inv_restart P bs l l1 inv hr) ne w1 h g
+        refine ⟨lo', hiE', ?_, h2⟩
+        simp only [specRun, specStep]
+        rw [hc1, ← hcur] at h1
+        exact h1
+    | syncHeader x =>
+      simp only [step] at h
+      have e : bs ++ committed (Op.syncHeader x :: r) = bs ++ committed r := by simp [committed]
+      rw [e] at g
+      by_cases hl : l.cache.last = l.curHeight
+      · simp only [hl, if_true] at h
+        have w1 := lwin_sync x l lo hiE w hl
+        have ehi : hiE = l.curHeight + 1 := by
+          rcases w.hi with q | q
+          · exact q
+          · have h1 := w.lo_le
+            have := w.win.last (by omega); omega
+        obtain ⟨lo', hiE', h1, h2⟩ := ih bs (syncHeader x l) _ _ (inv_syncHeader P bs x l inv) ne w1 h g
+        refine ⟨lo', hiE', ?_, h2⟩
+        simp only [specRun, specStep, ehi, if_true]
+        have : (syncHeader x l).curHeight = l.curHeight := rfl
+        rw [this, evictedLo_eq_max] at h1
+        exact h1
+      · simp [hl] at h
+
+theorem lwin_genesis (P : Prims) (b0 : Block) (h0 : b0.hdr.height = 0) : LWin (commit P b0 emptyLedger) 0 1 := by
+  have w0 : Window emptyLedger.cache 0 0 :=
+    ⟨rfl, ⟨fun k => ⟨fun q => by simp [emptyLedger, mapGet] at q, fun ⟨a, b⟩ => by omega⟩, by simp [emptyLedger], by simp [emptyLedger]⟩,
+      by simp [emptyLedger], fun q => absurd q (Nat.lt_irrefl _)⟩
+  have e : evictedLo 0 0 = 0 := by simp [evictedLo]
+  have w := setHeaderIndex_new 0 (P.hH b0.hdr) emptyLedger.cache 0 0 w0 (Nat.le_refl _) (by rw [e]; omega)
+  rw [e] at w
+  refine ⟨?_, by simp, Or.inl (by simp [commit, h0])⟩
+  simpa [commit, h0, emptyLedger] using w
+
+def Op.isCommit : Op → Bool
+  | .commit _ => true
+  | _ => false
+
+attribute [local irreducible] OntVerif.Gen.LedgerQuery.headerIndexMaxSize in
+theorem specRun_commits_step (b : Block) (r : List Op) (cur lo hiE : Nat) :
+    specRun (Op.commit b :: r) (cur, lo, hiE) = specRun r (cur + 1, max lo (cur + 1 - headerIndexMaxSize), cur + 2) := rfl
+
+theorem specRun_append (a b : List Op) (st : Nat × Nat × Nat) :
+    specRun (a ++ b) st = match specRun a st with | none => none | some st' => specRun b st' := by
+  induction a generalizing st with
+  | nil => rfl
+  | cons op r ih =>
+    simp only [List.cons_append, specRun]
+    cases specStep st op with
+    | none => rfl
+    | some st' => exact ih st'
+
+theorem specRun_commits (ops : List Op) (hc : ∀ op ∈ ops, Op.isCommit op = true) (cur : Nat) :
+    specRun ops (cur, cur - headerIndexMaxSize, cur + 1)
+      = some (cur + ops.length, cur + ops.length - headerIndexMaxSize, cur + ops.length + 1) := by
+  induction ops generalizing cur with
+  | nil => rfl
+  | cons op r ih =>
+    cases op with
+    | commit b =>
+      rw [specRun_commits_step]
+      have e : max (cur - headerIndexMaxSize) (cur + 1 - headerIndexMaxSize) = cur + 1 - headerIndexMaxSize := by omega
+      rw [e, ih (fun o ho => hc o (by simp [ho])) (cur + 1)]
+      simp only [List.length_cons]
+      have e2 : cur + 1 + r.length = cur + (r.length + 1) := by omega
+      rw [e2]
+    | restart => have := hc .restart (by simp); simp [Op.isCommit] at this
+    | syncHeader x => have := hc (.syncHeader x) (by simp); simp [Op.isCommit] at this
 
 end OntVerif.Proofs.BlockStore
